@@ -1,4 +1,5 @@
 import BeyondVerif.Model.DateCfg
+import BeyondVerif.Model.DateDbl
 /-!
 Kernel-checked witnesses for C03, with the IERS values of 2015-03-03 / 04 (UT1−UTC = −0.5295713 s and −0.5306080 s,
 TAI−UTC = 35 s).
@@ -68,5 +69,48 @@ theorem utc_midnight_band_changes_instant :
     instOf (convert utc usMidnight ut1) = some 49321440349989633 ∧
     ut1Of (ofDatetime cfg env2 utc usMidnight) = some (-5306080) ∧ ut1Of (convert utc usMidnight ut1) = some (-5295713) := by
   decide
+
+/-- the change of UT1−UTC from March 3 to March 4 is 10 367 ticks = 1036.7 µs: **the band is sharp** — a UTC date 1036 µs
+after midnight of March 4 converted to UT1 moves by the whole difference, one microsecond later (1037 µs) by nothing
+(`Props/C03b.lean to_ut1_step`, `to_ut1_safe_zone`) -/
+theorem band_edge_is_sharp :
+    instOf (ofDatetime cfg env2 utc (usMidnight + 1036)) = some 49321440350010360 ∧
+    instOf (convert utc (usMidnight + 1036) ut1) = some (49321440350010360 - 10367) ∧
+    instOf (ofDatetime cfg env2 utc (usMidnight + 1037)) = some 49321440350010370 ∧
+    instOf (convert utc (usMidnight + 1037) ut1) = some 49321440350010370 := by
+  decide
+
+def tdb : Nat := scalesNames.idxOf "TDB"
+
+/-- the same two days with a constant TDB−TT term of 1.2345 ms (no drift) -/
+def env3 : Env := { env2 with tdb := fun _ => 12345 }
+
+/-- the shift of the instant by `Date(d, s, scale=frm).change_scale(to)`, ticks -/
+def shift (env : Env) (frm : Nat) (d s : Int) (to : Nat) : Option Int :=
+  match mk cfg env frm d s with
+  | .ok x =>
+    match changeScale cfg env x to with
+    | .ok y => some (y.inst - x.inst)
+    | .error _ => none
+  | .error _ => none
+
+/-- **"within one microsecond" is not what three roundings give in the internal representation**: a TDB date whose clock
+reading is not a whole microsecond (`Date(57084, 43200.000001, scale="TDB")`), converted to UT1 with the same EOP record and
+a constant TDB term, moves by 12 ticks = 1.2 µs — `_s`, `_offset` and the offset are rounded to the microsecond separately.
+(`Props/C03b.lean`: at most 1.6 µs, `changeScale_instant_bound_all`; and never more than 1 µs in `date2 - date1`,
+`changeScale_observed_us`.  On the real `Date` the float noise at the ties of the 0.1-µs UT1−UTC column gives up to 1.49 µs also
+between UT1 and the uniform scales: oracle family `instant-internal`.) -/
+theorem three_roundings_exceed_1us : shift env3 tdb 57084 432000000010 ut1 = some (-12) := by decide
+
+/-- **the day number comes from a double**: `Date(57085, 34.9999997, scale="TAI")` is 0.3 µs *before* 00:00:00 UTC of
+March 4 — the exact-day model gives it the record of March 3, the binary64 computation of `Date.__init__`
+(`Model/DateDbl.lean`: `mjd_utc` rounds up to 57085.0) the record of March 4.  Outside 0.7 µs of UTC midnight the two agree
+(`Props/C03d.lean day_of_double_utc`, `eopForF_record_of_utc_day`). -/
+theorem sub_microsecond_band_differs :
+    ut1Of (mk cfg env2 tai 57085 349999997) = some (-5295713) ∧
+    eopForF cfg env2 tai 57085 (fl (349999997 / 10000000)) = .ok ⟨350000000, -5306080⟩ 57085 (some 57085) ∧
+    eopForF cfg env2 tai 57085 (fl (349999990 / 10000000)) = .ok ⟨350000000, -5295713⟩ 57085 (some 57084) ∧
+    ut1Of (mk cfg env2 tai 57085 349999990) = some (-5295713) := by
+  decide +kernel
 
 end BeyondVerif.C03W
